@@ -183,12 +183,17 @@ def run(tier: str) -> int:
         eu = gen.COGEN[k % len(gen.COGEN)]
         p = gen.base(rng, 4, eu, rng.choice([1, 2, 4]), (3, 3, 1, 2)[k % 4], lifetime=rng.choice([10, 20, 30]), steps=2)
         gen.add_prices(p, rng)
-        p['CHP Electrical Plant Cost Allocation Ratio'] = gen.fmt(rng.uniform(0.05, 0.4) if k % 3 else rng.uniform(0.6, 0.95))
+        split = 'given' if k % 2 == 0 else 'left to the model'
+        if split == 'given':
+            p['CHP Electrical Plant Cost Allocation Ratio'] = gen.fmt(rng.uniform(0.05, 0.4) if k % 3 else rng.uniform(0.6, 0.95))
         p['Investment Tax Credit Rate'] = gen.fmt(rng.uniform(0.15, 0.5))
-        for name in rng.sample(['Exploration Capital Cost', 'Reservoir Stimulation Capital Cost', 'Field Gathering System Capital Cost',
-                                'Reservoir Stimulation Capital Cost Adjustment Factor', 'Exploration Capital Cost Adjustment Factor',
-                                'Surface Plant Capital Cost', 'Well Drilling and Completion Capital Cost'], 3):
-            rungs = [(x, with_param(p, name, x)) for x in rungs_for(rng, name, 3)]
+        names = rng.sample(['Exploration Capital Cost', 'Reservoir Stimulation Capital Cost', 'Field Gathering System Capital Cost',
+                            'Reservoir Stimulation Capital Cost Adjustment Factor', 'Exploration Capital Cost Adjustment Factor',
+                            'Surface Plant Capital Cost', 'Well Drilling and Completion Capital Cost'], 3)
+        if split != 'given':      # the cost being split is the one to vary when the split is the model's own
+            names = ['Surface Plant Capital Cost', 'Surface Plant O&M Cost'] + [n for n in names if n != 'Surface Plant Capital Cost'][:1]
+        for name in names:
+            rungs = [(x, with_param(p, name, x)) for x in rungs_for(rng, name, 5 if split != 'given' else 3)]
             L.add('C18_npv_cost', 'nonincreasing', lambda r: r['out']['npv'], rungs, {'parameter': name, 'base': f'cogen-split#{k}:eu{eu}'})
             L.add('C18_lc_cost', 'nondecreasing', lambda r: [r['out']['lcoe'], r['out']['lcoh'], r['out']['lcoc']], rungs,
                   {'parameter': name, 'base': f'cogen-split#{k}:eu{eu}'}, precondition=energy_positive)
